@@ -309,7 +309,22 @@ func (p *Program) VerifyFunction(id string) (res *FuncResult) {
 				continue
 			}
 			exists := false
-			if tn, ok := fn.Pkg.Pkg.Scope().Lookup(fm.Type).(*types.TypeName); ok {
+			if tn, ok := fn.Pkg.Pkg.Scope().Lookup(fm.Type).(*types.TypeName); ok && fm.Method == "" {
+				tagged := ""
+				if stt, ok := tn.Type().Underlying().(*types.Struct); ok {
+					for i := 0; i < stt.NumFields(); i++ {
+						if stt.Tag(i) != "" && i != stt.NumFields()-1 {
+							tagged += " " + stt.Field(i).Name() + " `" + stt.Tag(i) + "`"
+						}
+					}
+				}
+				e.curPos = tn.Pos()
+				o := e.oblige("structure", "structure.no_tags."+fm.Type, "no field of type "+fm.Type+" other than the last one carries a struct tag ("+fm.Reason+")"+tagged, True, BoolLit(tagged == ""), nil)
+				if o != nil {
+					o.Props = fm.Props
+				}
+				continue
+			} else if ok {
 				for _, t := range []types.Type{tn.Type(), types.NewPointer(tn.Type())} {
 					ms := types.NewMethodSet(t)
 					for i := 0; i < ms.Len(); i++ {
@@ -789,10 +804,12 @@ func (e *Engine) lockCheck(st *State, reach Term, a *Addr, write bool) {
 		pkg := a.Global.Pkg.Pkg.Name()
 		tc := e.P.Contracts.Types[pkg+".globals"]
 		if tc == nil {
+			e.unclassifiedGlobal(reach, a, write, nil)
 			return
 		}
 		lockName, guarded := tc.Guarded[a.Global.Name()]
 		if !guarded {
+			e.unclassifiedGlobal(reach, a, write, tc)
 			return
 		}
 		mg, ok := a.Global.Pkg.Members[lockName].(*ssa.Global)
@@ -893,6 +910,80 @@ func (e *Engine) lockCheck(st *State, reach Term, a *Addr, write bool) {
 		e.unclassified[what] = true
 		e.oblige("lock.held", "lock.unclassified@"+what, "field "+what+" is neither guarded_by a lock nor immutable", reach, False, nil)
 	}
+}
+
+// sharedGlobal: a package-level variable of the module under verification that can hold state shared between
+// goroutines: not a synchronisation primitive, not a blank interface guard, not declared in the package's `globals` block.
+func (e *Engine) sharedGlobal(g *ssa.Global, tc *TypeContract) bool {
+	if g == nil || g.Pkg == nil || !strings.HasPrefix(g.Pkg.Pkg.Path(), modulePath) || strings.HasPrefix(g.Name(), "init$") || g.Name() == "_" {
+		return false
+	}
+	if tc != nil {
+		if _, ok := tc.Guarded[g.Name()]; ok || tc.Immutable[g.Name()] {
+			return false
+		}
+	}
+	if e.Fn != nil && e.Fn.Name() == "init" && e.Fn.Synthetic != "" {
+		return false // the package initialiser runs before any goroutine exists
+	}
+	if n, ok := g.Type().(*types.Pointer).Elem().(*types.Named); ok && n.Obj().Pkg() != nil && n.Obj().Pkg().Path() == "sync" {
+		return false
+	}
+	return true
+}
+
+// unclassifiedGlobal: a package variable that no contract declares guarded or immutable is written outside the
+// package initialiser: every goroutine shares it, so the write is a data race unless a lock is declared for it.
+func (e *Engine) unclassifiedGlobal(reach Term, a *Addr, write bool, tc *TypeContract) {
+	if !write || !e.sharedGlobal(a.Global, tc) {
+		return
+	}
+	what := a.Global.Pkg.Pkg.Name() + "." + a.Global.Name()
+	if !e.unclassified[what] {
+		e.unclassified[what] = true
+		e.oblige("lock.held", "lock.unclassified@"+what, "package variable "+what+" is written after package initialisation but is neither guarded_by a lock nor immutable", reach, False, nil)
+	}
+}
+
+// noteGlobalVal: remember references loaded from package variables that no contract declares guarded or immutable.
+func (e *Engine) noteGlobalVal(a *Addr, out Val) {
+	if a.Kind != aGlobal || !e.lockChecks || len(out.L) == 0 {
+		return
+	}
+	var tc *TypeContract
+	if a.Global != nil && a.Global.Pkg != nil {
+		tc = e.P.Contracts.Types[a.Global.Pkg.Pkg.Name()+".globals"]
+	}
+	if !e.sharedGlobal(a.Global, tc) {
+		return
+	}
+	leaf := out.L[0]
+	if _, isIface := out.T.Underlying().(*types.Interface); isIface && len(out.L) == 2 {
+		leaf = out.L[1]
+	}
+	if e.globalVals == nil {
+		e.globalVals = map[string]string{}
+	}
+	e.globalVals[leaf.S] = a.Global.Pkg.Pkg.Name() + "." + a.Global.Name()
+}
+
+// globalCallCheck: a method with effects is called on the object a package variable holds; all goroutines share that
+// object and nothing says which lock protects it.
+func (e *Engine) globalCallCheck(reach Term, recv Val, method string, pure bool) {
+	if len(e.globalVals) == 0 || len(recv.L) == 0 || pure {
+		return
+	}
+	leaf := recv.L[0]
+	if _, isIface := recv.T.Underlying().(*types.Interface); isIface && len(recv.L) == 2 {
+		leaf = recv.L[1]
+	}
+	what, ok := e.globalVals[leaf.S]
+	if !ok {
+		return
+	}
+	key := "lock.shared@" + what + "." + method
+	e.kindOrd[key]++
+	e.oblige("lock.held", fmt.Sprintf("%s#%d", key, e.kindOrd[key]), "call of "+method+" (not known to be free of effects) on the object held in package variable "+what+", which every goroutine shares and which no lock is declared for", reach, False, nil)
 }
 
 // ownedRec: a reference loaded from an `owns` field: the lock that protects the object behind it.
